@@ -4,7 +4,7 @@
 (* combination of identifier, serde(rename), rename_all rule and attribute spelling. Each state     *)
 (* prints the JSON keys layer P requires for both fields.                                           *)
 EXTENDS SerdeAttrs, TLC, Json
-CONSTANTS Idents, Renames, RuleSet, Spellings, EnumRules, EnumFieldRules, Layouts
+CONSTANTS Idents, Renames, RuleSet, Spellings, EnumRules, EnumFieldRules, Layouts, Decors
 VARIABLES c
 
 \* identifiers as character sequences; raw = written r#ident in Rust
@@ -37,7 +37,7 @@ RenameOf(n) == CASE n = "none" -> None
                  [] n = "$ref" -> <<"$","r","e","f">>            \* JSON-Schema / MongoDB style keys: `$` means something in Kotlin strings, nothing in Go tags
 
 Init == c \in [kind : {"struct", "variant"}, ident : Idents, rename : Renames, rule : RuleSet,
-               enum_rule : EnumRules, spelling : Spellings, enum_fields_rule : EnumFieldRules, layout : Layouts]
+               enum_rule : EnumRules, spelling : Spellings, enum_fields_rule : EnumFieldRules, layout : Layouts, decor : Decors]
 Next == UNCHANGED c
 
 RECURSIVE Str(_)
@@ -65,8 +65,11 @@ LayoutOf(l) == CASE l = "two" -> <<"S", "N">> [] l = "then_word" -> <<"S", "N", 
 KeyOfMember(m) == IF m = "S" THEN Str(FieldWire(IdentOf(c.ident).s, RenameOf(c.rename), RuleForField(Container)))
                   ELSE IF m = "N" THEN Str(FieldWire(Neighbour, None, RuleForField(Container)))
                   ELSE Str(FieldWire(Word(m), None, RuleForField(Container)))
+\* decor: a typeshare(..) decoration of the field that changes how a backend PRINTS the member (TypeScript readonly, a per-language type
+\* override) - never which JSON key it is bound to
+DecorScope == c.decor # "none" => (c.layout = "two" /\ c.spelling = "merged" /\ c.enum_rule = "none" /\ c.enum_fields_rule = "none")
 LayoutScope == c.layout # "two" => (c.spelling = "merged" /\ c.enum_rule = "none" /\ c.enum_fields_rule = "none")
-Emit == ((c.kind = "struct" => c.enum_rule = "none") /\ FieldsRuleScope /\ LayoutScope /\ ~DeferredToC16) =>
+Emit == ((c.kind = "struct" => c.enum_rule = "none") /\ FieldsRuleScope /\ LayoutScope /\ DecorScope /\ ~DeferredToC16) =>
     PrintT(<<"REPLAY", ToJson([case |-> c, configs |-> Configs, members |-> LayoutOf(c.layout),
         keys |-> [k \in 1..Len(LayoutOf(c.layout)) |-> KeyOfMember(LayoutOf(c.layout)[k])]])>>)
 =============================================================================
